@@ -22,6 +22,7 @@
 import QV.Proofs.Observe
 import QV.Proofs.PropDep
 import QV.Gen.VerifEnv
+import QV.Proofs.PropDepBuild
 
 namespace QV.Props.C02
 open QV.Model QV.Model.Observe QV.Proofs.Observe QV.Proofs.PropDep
@@ -313,3 +314,62 @@ end QV.Props.C02
 #print axioms QV.Props.C02.unobservable_body_rejected
 #print axioms QV.Props.C02.notify_choice
 #print axioms QV.Props.C02.notify_choice_verifEnv
+
+
+/-! ## APPENDED SECTION — coverage for ALL programs
+
+  (a) `propdep_covers` speaks about a body WITHOUT observe statements on which the analysis reports no diagnostic
+  and DOES NOT PANIC; whether the body handed to the analysis is such a body was checked per run (`coveredcheck`).
+  Here the two side conditions are discharged for every output of the model builder (`QV.Model.build`, tied to the
+  real `tir::build` by the exact-IR stream), by one more induction over the walk (`QV.Proofs.PropDepBuild`): the
+  builder never emits an observe statement, and the object operand of every `readProperty` it emits is never the
+  null constant (it comes from name resolution, which yields a named object, or from `process_item_property`, which
+  requires a concrete type) — so the analysis never reaches `panic!("invald read_property")`.
+  Consequently, for EVERY program: if the analysis reports no diagnostic then its output is covered
+  (`build_propdep_covers`), and the currency theorem holds for it without any coverage hypothesis
+  (`build_binding_current`).  A read of a notify-less property IS diagnosed (`unobservable_body_rejected`). -/
+
+namespace QV.Props.C02
+open QV.Model QV.Model.Observe QV.Proofs.Observe QV.Proofs.PropDep QV.Proofs.BuilderInv
+
+/-- the builder never emits observe statements: the first side condition of `propdep_covers`, for all programs -/
+theorem build_noObserve (ctx : Ctx) (callback : Bool) (p : Program) (code : CodeBody)
+    (h : (build ctx callback p).code = some code) : noObserve code :=
+  fun b hb s hs => goodSt_noObs (build_statements_good ctx callback p code h b hb s hs)
+
+/-- the analysis never panics on a built body: the third side condition, for all programs -/
+theorem build_analysis_never_panics (ctx : Ctx) (callback : Bool) (p : Program) (code : CodeBody)
+    (h : (build ctx callback p).code = some code) : (analyzePropertyDependency code).2.2 = none :=
+  analyze_no_panic code (build_statements_good ctx callback p code h)
+
+/-- **(a) for ALL programs**: the analysed body of every program on which the analysis reports no diagnostic is
+    covered -/
+theorem build_propdep_covers (ctx : Ctx) (callback : Bool) (p : Program) (code : CodeBody)
+    (h : (build ctx callback p).code = some code) (hd : (analyzePropertyDependency code).2.1 = []) :
+    covered (analyzePropertyDependency code).1 = true :=
+  propdep_covers code (build_noObserve ctx callback p code h) hd (build_analysis_never_panics ctx callback p code h)
+
+/-- **(b) for ALL programs**: for every program whose analysis reports no diagnostic, after `setup()` and after any
+    finite history of property changes the target holds the value of the expression in the current state — no
+    coverage hypothesis left -/
+theorem build_binding_current (ctx : Ctx) (callback : Bool) (p : Program) (code : CodeBody)
+    (h : (build ctx callback p).code = some code) (hd : (analyzePropertyDependency code).2.1 = [])
+    (S : Sem) (s0 : Store) (W0 W : World) (hist : List Change)
+    (h0 : setup S (analyzePropertyDependency code).1 s0 = some W0)
+    (hs : Steps S (analyzePropertyDependency code).1 W0 hist W) :
+    W.target = evalBody S (analyzePropertyDependency code).1 W.store ∧
+      (evalBody S (analyzePropertyDependency code).1 W.store).isSome = true :=
+  binding_current S _ (build_propdep_covers ctx callback p code h hd) s0 W0 W hist h0 hs
+
+/-- … and an analysed body with a read of a notify-less, non-constant property through a pointer is never silent -/
+theorem build_unobservable_rejected (ctx : Ctx) (callback : Bool) (p : Program) (code : CodeBody)
+    (_h : (build ctx callback p).code = some code) (hu : hasUnobservableRead code = true) :
+    (analyzePropertyDependency code).2.1 ≠ [] :=
+  unobservable_body_rejected code hu
+
+end QV.Props.C02
+
+#print axioms QV.Props.C02.build_noObserve
+#print axioms QV.Props.C02.build_analysis_never_panics
+#print axioms QV.Props.C02.build_propdep_covers
+#print axioms QV.Props.C02.build_binding_current
